@@ -149,16 +149,21 @@ Proof.
   destruct par as [|s [|s' r']]; repeat first [apply Inv_disconnect_interface | inv_step].
 Qed.
 
+Lemma Inv_disconnect_step i : Inv (disconnect_step i).
+Proof.
+  unfold disconnect_step. apply Inv_bind; [apply Inv_get | intros b]. destruct b; [apply Inv_disconnect_peers_of | apply Inv_ret].
+Qed.
+
 Lemma Inv_api_remove_node nm : Inv (api_remove_node nm).
 Proof.
   unfold api_remove_node.
-  repeat first [apply Inv_disconnect_peers_of | apply Inv_remove_node_graph | inv_step].
+  repeat first [apply Inv_disconnect_step | apply Inv_disconnect_peers_of | apply Inv_remove_node_graph | inv_step].
 Qed.
 
 Lemma Inv_api_remove_facility nm : Inv (api_remove_facility nm).
 Proof.
   unfold api_remove_facility.
-  repeat first [apply Inv_disconnect_peers_of | apply Inv_remove_node_graph | inv_step].
+  repeat first [apply Inv_disconnect_step | apply Inv_disconnect_peers_of | apply Inv_remove_node_graph | inv_step].
 Qed.
 
 Lemma Inv_api_remove_switch nm : Inv (api_remove_switch nm).
@@ -169,7 +174,7 @@ Proof. unfold api_remove_link. repeat first [apply Inv_remove_link_graph | inv_s
 
 Lemma Inv_remove_ns_disconnecting s : Inv (remove_ns_disconnecting s).
 Proof.
-  unfold remove_ns_disconnecting. repeat first [apply Inv_disconnect_peers_of | apply Inv_remove_ns | inv_step].
+  unfold remove_ns_disconnecting. repeat first [apply Inv_disconnect_step | apply Inv_disconnect_peers_of | apply Inv_remove_ns | inv_step].
 Qed.
 
 Lemma Inv_api_remove_ns_topo nm : Inv (api_remove_ns_topo nm).
@@ -178,7 +183,7 @@ Proof. unfold api_remove_ns_topo. repeat first [apply Inv_remove_ns_disconnectin
 Lemma Inv_api_remove_component n c : Inv (api_remove_component n c).
 Proof.
   unfold api_remove_component.
-  repeat first [apply Inv_need_class | apply Inv_disconnect_peers_of | apply Inv_remove_component | inv_step].
+  repeat first [apply Inv_need_class | apply Inv_disconnect_step | apply Inv_disconnect_peers_of | apply Inv_remove_component | inv_step].
 Qed.
 
 Lemma Inv_api_node_remove_ns n s : Inv (api_node_remove_ns n s).
@@ -194,7 +199,7 @@ Lemma Inv_api_remove_interface ex s i c : Inv (api_remove_interface ex s i c).
 Proof. unfold api_remove_interface. repeat first [apply Inv_remove_cp | inv_step]. Qed.
 
 Lemma Inv_api_remove_child p i c : Inv (api_remove_child p i c).
-Proof. unfold api_remove_child. repeat first [apply Inv_remove_cp | apply Inv_disconnect_peers_of | inv_step]. Qed.
+Proof. unfold api_remove_child. repeat first [apply Inv_remove_cp | apply Inv_disconnect_step | apply Inv_disconnect_peers_of | inv_step]. Qed.
 
 Lemma Inv_api_unpeer_with xy ca cb : Inv (api_unpeer_with xy ca cb).
 Proof. unfold api_unpeer_with. repeat first [apply Inv_remove_cp | inv_step]. Qed.
